@@ -459,6 +459,13 @@ func jobSyncMonitor(res *Result, m *mJob, cfg jsCfg, ops []jsOp, obs []jsObs, js
 				}
 			}
 		}
+		if pt > 0 && !j.Status.StartTime.IsZero() && j.DeletionTimestamp == nil {
+			for _, p := range last.Pods {
+				if podControlled(p) && listed[p.Name] && p.Status.Phase != corev1.PodRunning && podAlive(p) && p.DeletionTimestamp == nil && p.CreationTimestamp.Unix()+pt <= last.Now {
+					hit("C12", "C12/pending-task-not-reaped", fmt.Sprintf("%s has been pending since %d, pending timeout %d s, clock %d, and is still there at quiescence", p.Name, p.CreationTimestamp.Unix(), pt, last.Now))
+				}
+			}
+		}
 		if foreignSeen && j.Spec.KillTimestamp == nil && j.DeletionTimestamp == nil && j.Status.Phase != execution.JobAdmissionError && !j.Status.Phase.IsTerminal() {
 			hit("C09", "C09/foreign-occupant-no-admission-error", fmt.Sprintf("a foreign Pod occupies a task name but the Job is %s at quiescence", j.Status.Phase))
 		}
